@@ -94,6 +94,15 @@ func (n *qnode) hasEmptyComb() bool {
 	return false
 }
 
+func (n *qnode) clone() *qnode {
+	c := *n
+	c.Children = nil
+	for _, ch := range n.Children {
+		c.Children = append(c.Children, ch.clone())
+	}
+	return &c
+}
+
 func (n *qnode) String() string { b, _ := json.Marshal(n); return string(b) }
 
 var ptCoq = map[string]string{"attr": "PAttr", "urn": "PURN", "field": "PField", "": "PNone"}
@@ -1012,7 +1021,7 @@ func runCqlStreams(o *hx.Opts, res *hx.Result, r *hx.Rand) {
 					}
 				}
 			}
-			got := ob.Root
+			got := ob.Root.clone()
 			if gc, wc := got.conds(nil), want.conds(nil); len(gc) == len(wc) {
 				for x := range wc {
 					if wc[x].PT == "*" {
